@@ -873,7 +873,7 @@ def builtin_table(ctx):
             elif exp != (size, al_):
                 ok = False
                 det.append('%s: rustc has size %d align %d' % (tgt, exp[0], exp[1]))
-        ctx.ob(['C02', 'C01', 'C13'], 'R-TABLE', 'builtins|%s' % name, ok,
+        ctx.ob(['C02', 'C01', 'C13', 'C03'], 'R-TABLE', 'builtins|%s' % name, ok,
                'built-in `%s` is (size %d, align %d) in pyxis; the Rust type emitted for it has the same size and ABI alignment on x86_64- and i686-pc-windows-msvc%s' % (
                    name, size, al_, '' if ok else ' — MISMATCH: ' + '; '.join(det)), loc(f.span))
 
